@@ -17,6 +17,7 @@ func init() { Registry["C07"] = c07 }
 const v2Pkg = "network/transport/v2"
 
 func c07(r *Report) {
+	defer c07Seed9(r)
 	defer c07Seed8(r)
 	defer c07Seed7(r)
 	defer c07Seed5(r)
